@@ -317,6 +317,15 @@ macro_rules! sc {
         fn $name() { string_claim::<$a, $b>($w); }
     )*};
 }
+/// lengths that differ by 256: a length comparison done in 8 bits would take them for equal
+macro_rules! sc_long {
+    ($($name:ident = ($a:literal, $b:literal, $w:literal)),*) => {$(
+        #[kani::proof]
+        #[kani::unwind(260)]
+        fn $name() { string_claim::<$a, $b>($w); }
+    )*};
+}
+sc_long!(subject_257_1 = (257, 1, 0), issuer_1_257 = (1, 257, 1), audience_256_0 = (256, 0, 2));
 sc!(subject_2_2 = (2, 2, 0), subject_1_2 = (1, 2, 0), subject_0_0 = (0, 0, 0),
     issuer_3_3 = (3, 3, 1), issuer_2_3 = (2, 3, 1),
     audience_2_2 = (2, 2, 2), audience_3_1 = (3, 1, 2));
